@@ -519,7 +519,7 @@ def theta_for(spec, X, pattern):
             return [AMP[L]] + [SCALE[(L + 1 + i) % 3] + 0.17 * i for i in range(d)]
         if k == "RQ":
             L = lvl()
-            return [AMP[(L + 1) % 3] * 0.5 + 0.1, ALPHA[L]] + [SCALE[(L + 2 + i) % 3] - 0.11 * i for i in range(d)]
+            return [AMP[(L + 1) % 3] * 0.9 - 0.3, ALPHA[L]] + [SCALE[(L + 2 + i) % 3] - 0.11 * i for i in range(d)]
         if k == "WN":
             return [WNS[lvl()]]
         if k == "HN":
